@@ -81,6 +81,8 @@ def gen_design(r, cfg):
         elif kind == "latch":
             st = {"kind": "latch", "input": r.choice(nets) if nets else new_net(), "output": new_net(),
                   "control": (r.choice(nets) if r.random() < 0.5 else None)}
+            if st["control"] is None and r.random() < 0.3:
+                st["control"] = "unconn"     # .latch in out re unconn 2 : the long form with no clock net
         else:
             if len(nets) < 2:
                 continue
@@ -241,7 +243,7 @@ def expected(d):
             rec["model"] = "generic-latch"
             attach(st["input"], ("inst", idx, "input", 0))
             attach(st["output"], ("inst", idx, "output", 0))
-            if st["control"] is not None:
+            if st["control"] is not None and st["control"] != "unconn":
                 attach(st["control"], ("inst", idx, "control", 0))
         insts.append(rec)
     groups = {}
